@@ -214,6 +214,31 @@ pub fn push_item_stubbed(t: &mut Tape, item: Item) {
     }
 }
 
+pub const WINDOW: usize = 3;
+
+/// The fixed-width window of an item (`None` = nothing), with the two-cell `<rpc-error>` form.
+pub fn window_stubbed(item: Option<Item>) -> [Cell; WINDOW] {
+    const X: Cell = Cell::NONE;
+    match item {
+        None => [Cell::nop(WINDOW as u8), X, X],
+        Some(Item::Ok) => [cells::OK.with_skip(2), X, X],
+        Some(Item::OkPair) => [cells::OK_START, cells::OK_END.with_skip(1), X],
+        Some(Item::ErrError) => [ERR_ERROR_START, ERR_END.with_skip(1), X],
+        Some(Item::ErrWarning) => [ERR_WARNING_START, ERR_END.with_skip(1), X],
+        Some(Item::Comment) => [cells::COMMENT.with_skip(2), X, X],
+        Some(Item::Other) => [cells::OTHER.with_skip(2), X, X],
+        Some(Item::ForeignOk) => [cells::FOREIGN_OK.with_skip(2), X, X],
+        Some(Item::Data) => [cells::DATA_START, cells::TEXT_X, cells::DATA_END],
+        Some(Item::Text) => [cells::TEXT_STRAY.with_skip(2), X, X],
+    }
+}
+
+pub fn push_window(t: &mut Tape, w: [Cell; WINDOW]) {
+    t.push(w[0]);
+    t.push(w[1]);
+    t.push(w[2]);
+}
+
 pub fn push_item(t: &mut Tape, item: Item) {
     match item {
         Item::Ok => t.push(cells::OK),
